@@ -166,6 +166,9 @@ type instr struct {
 	// local variables (and parameters) captured by the function literal of a
 	// go statement: shared between the spawning and the spawned goroutine
 	sharedLocals map[*types.Var]bool
+	// per-element tracking of slice accesses
+	elemModes map[*ast.IndexExpr]accessMode
+	elemSkip  map[*ast.IndexExpr]bool
 }
 
 func sel(name string) ast.Expr {
@@ -341,8 +344,30 @@ func (in *instr) findSharedLocals(f *ast.File) {
 	})
 }
 
+// isSliceIndex: x[i] where x is a slice (not a map, string, array value or a
+// generic instantiation).
+func (in *instr) isSliceIndex(ix *ast.IndexExpr) bool {
+	tv, ok := in.info.Types[ix.X]
+	if !ok || !tv.IsValue() {
+		return false
+	}
+	if _, isSlice := tv.Type.Underlying().(*types.Slice); !isSlice {
+		return false
+	}
+	if os.Getenv("VERIF_NO_ELEMENTS") != "" {
+		return false // measurement aid: instrument without per-element tracking
+	}
+	// a slice that is the result of a call is a temporary: nothing to share
+	switch stripValue(ix.X).(type) {
+	case *ast.CallExpr:
+		return false
+	}
+	return true
+}
+
 func (in *instr) computeModes(f *ast.File) {
 	in.findSharedLocals(f)
+	in.elemSkip = map[*ast.IndexExpr]bool{}
 	in.modes = map[ast.Expr]accessMode{}
 	ast.Inspect(f, func(n ast.Node) bool {
 		switch x := n.(type) {
@@ -385,6 +410,44 @@ func (in *instr) computeModes(f *ast.File) {
 						}
 					}
 				}
+			}
+		}
+		return true
+	})
+	// slice elements: x[i] on a slice (always addressable) is tracked per element
+	in.elemModes = map[*ast.IndexExpr]accessMode{}
+	markElem := func(e ast.Expr, m accessMode) {
+		ix, ok := stripValue(e).(*ast.IndexExpr)
+		if !ok || !in.isSliceIndex(ix) {
+			return
+		}
+		in.elemModes[ix] = m
+	}
+	ast.Inspect(f, func(n ast.Node) bool {
+		switch x := n.(type) {
+		case *ast.AssignStmt:
+			if x.Tok != token.DEFINE {
+				for _, l := range x.Lhs {
+					markElem(l, modeW)
+				}
+			}
+		case *ast.IncDecStmt:
+			markElem(x.X, modeW)
+		case *ast.UnaryExpr:
+			if x.Op == token.AND {
+				// &x[i]: the address escapes; not tracked (and must stay an lvalue)
+				if ix, ok := stripValue(x.X).(*ast.IndexExpr); ok {
+					in.elemModes[ix] = modeNone
+					in.elemSkip[ix] = true
+				}
+			}
+		}
+		return true
+	})
+	ast.Inspect(f, func(n ast.Node) bool {
+		if ix, ok := n.(*ast.IndexExpr); ok && in.isSliceIndex(ix) && !in.elemSkip[ix] {
+			if _, done := in.elemModes[ix]; !done {
+				in.elemModes[ix] = modeR
 			}
 		}
 		return true
@@ -553,6 +616,17 @@ func (in *instr) file(f *ast.File) {
 					return true
 				}
 				in.replaceAccess(c, n, m)
+			}
+		case *ast.IndexExpr:
+			if m := in.elemModes[n]; m != modeNone {
+				fn := "R"
+				if m == modeW {
+					fn = "W"
+				}
+				st.Rewrites["element_"+fn]++
+				pos := in.fset.Position(n.Lbrack)
+				site := fmt.Sprintf("slice-element|%s|%s:%d", in.curFunc(), filepath.Base(pos.Filename), pos.Line)
+				c.Replace(&ast.ParenExpr{X: &ast.StarExpr{X: in.call(fn+"e", &ast.UnaryExpr{Op: token.AND, X: n}, strLit(site))}})
 			}
 		case *ast.IncDecStmt:
 			in.splitRMW(c, n.X, n.Tok, nil)
